@@ -234,7 +234,12 @@ where
         } else {
             let mut a = MpReachNlriBuilder::new();
             a.add_announcements_from_pdu::<Octs, O>(source, _session_config);
-            self.announcements = Some(a);
+            // Nothing to add (none of this family, or the first one does
+            // not parse): leave the builder as it was rather than with an
+            // empty MP_REACH_NLRI that makes it invalid.
+            if !a.is_empty() {
+                self.announcements = Some(a);
+            }
         }
     }
 
@@ -256,7 +261,9 @@ where
         } else {
             let mut w = MpUnreachNlriBuilder::new();
             w.add_withdrawals_from_pdu::<Octs, O>(source, _session_config);
-            self.withdrawals = Some(w);
+            if !w.is_empty() {
+                self.withdrawals = Some(w);
+            }
         }
     }
 
@@ -811,7 +818,18 @@ impl<A> MpReachNlriBuilder<A> {
     {
         if let Ok(Some(iter)) = source.typed_announcements::<_, A>() {
             for a in iter {
-                self.add_announcement(a.unwrap());
+                // The NLRI in the MP attributes are not validated when the
+                // UPDATE is parsed. Past the first one that does not parse
+                // nothing can be trusted, so we take what came before it (as
+                // the iterators on UpdateMessage document) instead of
+                // panicking on input a peer controls.
+                match a {
+                    Ok(a) => self.add_announcement(a),
+                    Err(e) => {
+                        warn!("not adding unparsable announcements: {}", e);
+                        break;
+                    }
+                }
             }
         }
     }
@@ -1177,7 +1195,14 @@ where
     {
         if let Ok(Some(iter)) = source.typed_withdrawals::<_, A>() {
             for w in iter {
-                self.add_withdrawal(w.unwrap());
+                // See MpReachNlriBuilder::add_announcements_from_pdu.
+                match w {
+                    Ok(w) => self.add_withdrawal(w),
+                    Err(e) => {
+                        warn!("not adding unparsable withdrawals: {}", e);
+                        break;
+                    }
+                }
             }
         }
     }
